@@ -1,5 +1,5 @@
 (* Pinned statements of C05: re-checked on every run. *)
-From SF Require Import Base.Prelude Gen.Generated Unsized.Types Unsized.Parse Unsized.Machine Unsized.Ops Unsized.Run Unsized.Proofs.EncodeParse Unsized.Proofs.Mem Unsized.Proofs.Notify Unsized.Proofs.Flat Unsized.Proofs.Layout Unsized.Proofs.Observe Unsized.Proofs.Path Unsized.Proofs.Context Unsized.Proofs.FocusOps Unsized.Proofs.NotifyInside Unsized.Proofs.Resize Unsized.Proofs.GenOps Unsized.Proofs.History Unsized.Proofs.Init Unsized.Proofs.History2 Unsized.Proofs.ExecTie Unsized.Proofs.InitKinds Unsized.SizedInit Unsized.Proofs.SizedInitProofs Properties.C05.
+From SF Require Import Base.Prelude Gen.Generated Unsized.Types Unsized.Parse Unsized.Machine Unsized.Ops Unsized.Run Unsized.Proofs.EncodeParse Unsized.Proofs.Mem Unsized.Proofs.Notify Unsized.Proofs.Flat Unsized.Proofs.Layout Unsized.Proofs.Observe Unsized.Proofs.Path Unsized.Proofs.Context Unsized.Proofs.FocusOps Unsized.Proofs.NotifyInside Unsized.Proofs.Resize Unsized.Proofs.GenOps Unsized.Proofs.History Unsized.Proofs.Init Unsized.Proofs.History2 Unsized.Proofs.ExecTie Unsized.Proofs.InitKinds Unsized.SizedInit Unsized.Proofs.SizedInitProofs Unsized.ClientAcct Unsized.Proofs.ClientAcctProofs Properties.C05.
 
 Check (C05_encode_size :
  forall t v, wf t v = true -> zlen (encode t v) = byte_size t v).
@@ -47,6 +47,12 @@ Check (C05_sized_default_init_writes_the_default :
     sized_ok t -> (s_size t <= length dst)%nat -> sized_init t None dst = Some (after, rest) ->
     firstn (s_size t) after = s_default t /\
     (s_default t <> repeat 0 (s_size t) -> firstn (s_size t) after <> repeat 0 (s_size t))).
+Check (C05_client_roundtrip :
+  forall d bs, zlen bs < 256 ^ 4 -> client_de d (client_ser d bs) = Some bs).
+Check (C05_client_rejects_other_discriminant :
+  forall d data, firstn (length d) data <> d -> client_de d data = None).
+Check (C05_client_rejects_sibling_account :
+  forall d d' bs, length d' = length d -> d' <> d -> client_de d (client_ser d' bs) = None).
 
 Print Assumptions C05_encode_size.
 Print Assumptions C05_roundtrip.
@@ -60,3 +66,6 @@ Print Assumptions C05_every_initializer_exact.
 Print Assumptions C05_init_array_too_long.
 Print Assumptions C05_sized_init_exact.
 Print Assumptions C05_sized_default_init_writes_the_default.
+Print Assumptions C05_client_roundtrip.
+Print Assumptions C05_client_rejects_other_discriminant.
+Print Assumptions C05_client_rejects_sibling_account.
